@@ -38,6 +38,8 @@ type Consistent struct {
 	// consistent hashCircle
 	hashCircle      map[int64]getty.Session
 	sortedHashNodes []int64
+	// the sessions the ring was built from
+	members map[getty.Session]bool
 }
 
 func (c *Consistent) put(key int64, session getty.Session) {
@@ -59,49 +61,66 @@ func (c *Consistent) hash(key string) int64 {
 
 // pick get a  node
 func (c *Consistent) pick(sessions *sync.Map, key string) getty.Session {
+	// the ring must hold exactly the sessions that are registered and open right now: it is rebuilt
+	// whenever a session was opened, closed or released since it was built
+	open := make(map[getty.Session]bool)
+	sessions.Range(func(k, value interface{}) bool {
+		session := k.(getty.Session)
+		if session.IsClosed() {
+			sessions.Delete(k)
+		} else {
+			open[session] = true
+		}
+		return true
+	})
+	if len(open) == 0 {
+		return nil
+	}
+
+	c.Lock()
+	defer c.Unlock()
+	if !c.sameMembers(open) {
+		c.rebuild(open)
+	}
+
 	hashKey := c.hash(key)
 	index := sort.Search(len(c.sortedHashNodes), func(i int) bool {
 		return c.sortedHashNodes[i] >= hashKey
 	})
-
 	if index == len(c.sortedHashNodes) {
-		return RandomLoadBalance(sessions, key)
+		// past the last node: the ring wraps around
+		index = 0
 	}
-
-	c.RLock()
-	session, ok := c.hashCircle[c.sortedHashNodes[index]]
-	if !ok {
-		c.RUnlock()
-		return RandomLoadBalance(sessions, key)
-	}
-	c.RUnlock()
-
-	if session.IsClosed() {
-		go c.refreshHashCircle(sessions)
-		return c.firstKey()
-	}
-
-	return session
+	return c.hashCircle[c.sortedHashNodes[index]]
 }
 
-// refreshHashCircle refresh hashCircle
-func (c *Consistent) refreshHashCircle(sessions *sync.Map) {
-	var sortedHashNodes []int64
-	hashCircle := make(map[int64]getty.Session)
-	var session getty.Session
-	sessions.Range(func(key, value interface{}) bool {
-		session = key.(getty.Session)
-		for i := 0; i < defaultVirtualNodeNumber; i++ {
-			if !session.IsClosed() {
-				position := c.hash(fmt.Sprintf("%s%d", session.RemoteAddr(), i))
-				hashCircle[position] = session
-				sortedHashNodes = append(sortedHashNodes, position)
-			} else {
-				sessions.Delete(key)
-			}
+func (c *Consistent) sameMembers(open map[getty.Session]bool) bool {
+	if len(c.members) != len(open) {
+		return false
+	}
+	for session := range open {
+		if !c.members[session] {
+			return false
 		}
-		return true
-	})
+	}
+	return true
+}
+
+// rebuild builds the ring from the given sessions; the caller holds the lock
+func (c *Consistent) rebuild(open map[getty.Session]bool) {
+	sortedHashNodes := make([]int64, 0, len(open)*defaultVirtualNodeNumber)
+	hashCircle := make(map[int64]getty.Session, len(open)*defaultVirtualNodeNumber)
+	members := make(map[getty.Session]bool, len(open))
+	for session := range open {
+		members[session] = true
+		for i := 0; i < defaultVirtualNodeNumber; i++ {
+			position := c.hash(fmt.Sprintf("%s%d", session.RemoteAddr(), i))
+			if _, taken := hashCircle[position]; !taken {
+				sortedHashNodes = append(sortedHashNodes, position)
+			}
+			hashCircle[position] = session
+		}
+	}
 
 	// virtual node sort
 	sort.Slice(sortedHashNodes, func(i, j int) bool {
@@ -110,6 +129,24 @@ func (c *Consistent) refreshHashCircle(sessions *sync.Map) {
 
 	c.sortedHashNodes = sortedHashNodes
 	c.hashCircle = hashCircle
+	c.members = members
+}
+
+// refreshHashCircle refresh hashCircle
+func (c *Consistent) refreshHashCircle(sessions *sync.Map) {
+	open := make(map[getty.Session]bool)
+	sessions.Range(func(key, value interface{}) bool {
+		session := key.(getty.Session)
+		if session.IsClosed() {
+			sessions.Delete(key)
+		} else {
+			open[session] = true
+		}
+		return true
+	})
+	c.Lock()
+	defer c.Unlock()
+	c.rebuild(open)
 }
 
 func (c *Consistent) firstKey() getty.Session {
@@ -128,35 +165,13 @@ func newConsistenceInstance(sessions *sync.Map) *Consistent {
 		consistentInstance = &Consistent{
 			hashCircle: make(map[int64]getty.Session),
 		}
-		// construct hash circle
-		sessions.Range(func(key, value interface{}) bool {
-			session := key.(getty.Session)
-			for i := 0; i < defaultVirtualNodeNumber; i++ {
-				if !session.IsClosed() {
-					position := consistentInstance.hash(fmt.Sprintf("%s%d", session.RemoteAddr(), i))
-					consistentInstance.put(position, session)
-					consistentInstance.sortedHashNodes = append(consistentInstance.sortedHashNodes, position)
-				} else {
-					sessions.Delete(key)
-				}
-			}
-			return true
-		})
-
-		// virtual node sort
-		sort.Slice(consistentInstance.sortedHashNodes, func(i, j int) bool {
-			return consistentInstance.sortedHashNodes[i] < consistentInstance.sortedHashNodes[j]
-		})
+		consistentInstance.refreshHashCircle(sessions)
 	})
 
 	return consistentInstance
 }
 
 func ConsistentHashLoadBalance(sessions *sync.Map, xid string) getty.Session {
-	if consistentInstance == nil {
-		newConsistenceInstance(sessions)
-	}
-
 	// pick a node
-	return consistentInstance.pick(sessions, xid)
+	return newConsistenceInstance(sessions).pick(sessions, xid)
 }
